@@ -462,7 +462,14 @@ def cyclic_family(repo):
             "{% if ns %}a{% endif %}{% if ns == n2 %}b{% endif %}", "{% set q %}{{ ns }}{% endset %}{{ q|length }}", "{% filter upper %}{{ ns }}{% endfilter %}", "{{ ns|attr('me') }}", "{{ ns.me.me.me.me is defined }}",
             "{% macro m(a) %}{{ a }}{% endmacro %}{{ m(ns) }}{{ m(a=n2) }}", "{% with z = ns %}{{ z }}{% endwith %}", "{% include 'other.txt' %}{{ ns }}", "{{ [ns]|map('string')|list }}", "{{ [ns]|map('tojson')|list }}",
             "{{ [ns, n2]|join(', ') }}", "{{ [ns]|select|list }}", "{{ [ns, n2]|selectattr('me', 'eq', ns)|list }}", "{{ ns|default(n2) }}", "{{ namespace(a=ns) }}", "{{ cycler(ns, n2).next() }}", "{{ [ns] * 3 }}",
-            "{{ range(3)|map('string')|map('replace', '1', ns)|list }}", "{% for a in [ns, n2] %}{{ loop.changed(a) }}{{ loop.cycle(ns, n2) }}{{ loop.previtem }}{% endfor %}", "{% set ns.me = none %}{{ ns }}")]
+            "{{ range(3)|map('string')|map('replace', '1', ns)|list }}", "{% for a in [ns, n2] %}{{ loop.changed(a) }}{{ loop.cycle(ns, n2) }}{{ loop.previtem }}{% endfor %}", "{% set ns.me = none %}{{ ns }}",
+            # everything that hashes (IndexMap maps of the preserve_order build hash their keys; lookups hash the needle)
+            "{{ {ns: 1}|length }}", "{{ {ns: 1, n2: 2, 'a': 3}|length }}", "{{ ns in {'a': 1, 'b': 2} }}", "{{ {'a': 1, 'b': 2}[ns] }}", "{{ {'a': 1, 'b': 2, 'c': 3}[[ns]] is defined }}", "{% set d = {(ns, 1): 'x', (n2, 2): 'y'} %}{{ d|length }}",
+            "{{ dict({ns: 1}) }}", "{{ dict({ns: 1}, b=n2)|length }}", "{{ {[ns]: 1, [n2]: 2}|length }}", "{{ {{'k': ns}: 1, 'z': 2}|length }}", "{{ {ns: 1}[ns] }}", "{{ {ns: 1, n2: 2}[n2] }}", "{{ {ns: 1}|items|list|length }}",
+            "{{ {ns: 1, n2: 2}|dictsort|length }}", "{{ {ns: 1, 'a': 2}|tojson }}", "{{ {ns: 1, 'a': 2}|list|length }}", "{{ x[ns] is defined }}", "{{ ns in x }}", "{{ {ns: 1, 'a': 2} == {n2: 1, 'a': 2} }}", "{{ [ns, n2, ns]|unique|list|length }}",
+            "{{ [[ns], [n2], [ns]]|unique|list|length }}", "{{ [{'a': ns}, {'a': n2}]|unique(attribute='a')|list|length }}", "{{ [ns, n2]|groupby('me')|length }}", "{{ [{'a': ns, 'b': 1}, {'a': n2, 'b': 2}]|groupby('a')|length }}",
+            "{{ [{'a': ns}]|map(attribute='a')|unique|list|length }}", "{{ namespace(**{'a': ns}).a is defined }}", "{{ {ns: 1}|urlencode }}", "{{ {'a': 1, 'b': 2}|attr(ns) is defined }}", "{{ [ns, n2]|sum(start={ns: 1}) is defined }}",
+            "{% for k, v in {ns: 1, n2: 2}|items %}{{ loop.index }}{% endfor %}", "{% set m = {ns: 1, 'a': 2} %}{{ m[ns] }}{{ m['a'] }}{{ m|length }}", "{{ {ns: {n2: {ns: 1}}}|length }}", "{{ [1, 2]|map('string')|map('replace', '1', ns)|unique|list|length }}")]
     res = []
     for name, pre in CYCLES:
         res += split_exprs([t for t in out if t.startswith(pre)], pre)
@@ -582,6 +589,34 @@ def escaped_objects_family():
     return out
 
 
+FMT_CHARS = ["\u00e9", "\u20ac", "\U0001d11e", "a\u0301", "\u00a0", "\ufeff", "\u2028", "\u00df", "\u0130", "\ud7ff"]
+
+
+def format_text_family():
+    """non-ASCII / multi-byte text at every position of a format string: mapping keys, literal text, after %, between flags,
+    width, precision and conversion, unclosed keys; printf style through the `format` filter, printf and str.format style
+    through minijinja::formatting::format called directly (entries: (template, extra) or ("", extra with format_only))"""
+    out, direct = [], []
+    for c in FMT_CHARS:
+        pr = ["%(@)s", "%(a@b)s", "%(@", "%(@)", "%(@)@", "@%s@", "%@s", "%5@", "%.@f", "%s@", "%@", "%-@d", "%%@%", "%l@", "%5.3@", "%(k)s@%(k)s", "%0@5d", "%+@", "%#@x", "%(@)5.2f",
+              "@", "@%", "%(@@)r", "%c@", "@%c"]
+        for f in pr:
+            fs = f.replace("@", c)
+            lit = fs.replace("\\", "\\\\").replace("'", "\\'")
+            out.append("{{ '%s'|format({'%s': 1, 'k': '%s', 'a%sb': 2}) }}" % (lit, c, c, c))
+            out.append("{{ '%s'|format('%s', 1.5) }}" % (lit, c))
+            out.append("{{ '%s'|safe|format('%s') }}" % (lit, c))
+            direct.append(("", {"format_only": fs, "style": "printf", "args": [{c: 1, "k": c, "a%sb" % c: 2}]}))
+            direct.append(("", {"format_only": fs, "style": "printf", "args": [c, 1.5]}))
+        st = ["{@}", "{a[@]}", "{a[@}", "{a[@]", "{0[@]}", "{a.@}", "{@.a}", "{:@<5}", "{:@>5}", "{:@^5d}", "{:@}", "{:5@}", "{:.@f}", "{:<@}", "{!@}", "{a!r:@}", "@{}@", "{{@}}", "{@", "}@", "{:@=+5}", "{:,@}", "{:_@}",
+              "{:5.3@}", "{a[@][@]}", "{:@@<5}"]
+        for f in st:
+            fs = f.replace("@", c)
+            for args in ([{"a": {c: 1}}], [c, 1.5], [[c], {"a": [1]}], [1, {c: c}]):
+                direct.append(("", {"format_only": fs, "style": "str", "args": args}))
+    return out, direct
+
+
 def mutated_fixtures(repo, rng, n):
     srcs = []
     for f in sorted(glob.glob(os.path.join(repo, "minijinja/tests/inputs/*.txt")) + glob.glob(os.path.join(repo, "minijinja/tests/parser-inputs/*.txt"))
@@ -671,15 +706,45 @@ def _run_chunk(cmd, reqs, env, budget=None):
     return results
 
 
-def run_parallel(binname, reqs, rel, workers, chunk, memlimit=True, vlimit_kb=8000000, watchdog_ms=None, budget=None):
+def run_parallel(binname, reqs, rel, workers, chunk, memlimit=True, vlimit_kb=8000000, watchdog_ms=None, budget=None, alt=False):
     """results in request order; None = not run because the budget of the pass was spent"""
     env = dict(ENV)
     env["MJVERIF_WATCHDOG_MS"] = str(watchdog_ms or WATCHDOG_MS)
-    cmd = ["bash", "-c", ("ulimit -v %d; " % vlimit_kb if memlimit else "") + "exec " + bin_path(binname, rel)]
+    cmd = ["bash", "-c", ("ulimit -v %d; " % vlimit_kb if memlimit else "") + "exec " + (alt_bin if alt else bin_path)(binname, rel)]
     chunks = [reqs[i:i + chunk] for i in range(0, len(reqs), chunk)]
     with concurrent.futures.ThreadPoolExecutor(max_workers=workers) as ex:
         parts = list(ex.map(lambda c: _run_chunk(cmd, c, env, budget), chunks))
     return [r for p in parts for r in p]
+
+
+# second feature set: the code paths the default harness build does not compile (IndexMap maps that HASH their keys,
+# unicode identifiers, the v_htmlescape speedup, the optional filters of minijinja-contrib); own cargo target directory
+ALT_FEATURES = ["preserve_order", "minijinja/unicode", "minijinja/speedups", "minijinja-contrib/wordcount", "minijinja-contrib/wordwrap", "minijinja-contrib/unicode_wordwrap",
+                "minijinja-contrib/rand", "minijinja-contrib/html_entities", "minijinja-contrib/datetime", "minijinja-contrib/pycompat"]
+
+
+def alt_target_dir():
+    import vlib as _v
+    return os.path.join(CACHE, "target-c01x" + _v._TAG)
+
+
+def alt_bin(name, release):
+    return os.path.join(alt_target_dir(), "release" if release else "debug", name)
+
+
+def cargo_build_alt(bins, release):
+    h = harness_dir()
+    env = dict(ENV)
+    env["CARGO_TARGET_DIR"] = alt_target_dir()
+    with Lock("cargo" + os.path.basename(alt_target_dir())):
+        lock_dst = os.path.join(h, "Cargo.lock")
+        if not os.path.exists(lock_dst):
+            sh(["cp", os.path.join(REPO, "Cargo.lock"), lock_dst])
+        cmd = ["cargo", "build", "--offline", "--quiet", "--features", ",".join(ALT_FEATURES)] + (["--release"] if release else [])
+        for b in bins:
+            cmd += ["--bin", b]
+        rc, o, e = sh(cmd, cwd=h, timeout=3000, env=env)
+        return rc == 0, o + e
 
 
 def crash_kind(r):
@@ -701,7 +766,7 @@ def known_matches(entry, template, profile, kind):
     m = entry.get("match", {})
     if "regex" not in m or not re.search(m["regex"], template, re.S):
         return False
-    if m.get("profile", "any") not in ("any", profile):
+    if m.get("profile", "any") not in ("any", profile.split("+")[0]):
         return False
     kinds = m.get("kind", "any").split("|")
     if "abort" in kinds:
@@ -822,6 +887,12 @@ def main():
     if not (okc and okr):
         chk.violation("harness does not build against the current tree", {"theorem_or_correspondence": "build harness/src/bin/prog.rs", "log": (clog + clog2)[-1500:]}, True)
         chk.finish()
+    alt_profiles = (False, True) if chk.thorough or chk.replay else (False,)  # quick: the debug build (all checks on) of the second feature set
+    for rel in alt_profiles:
+        oka, aloga = cargo_build_alt(["prog", "c01"], rel)
+        if not oka:
+            chk.violation("harness does not build against the current tree with the second feature set", {"theorem_or_correspondence": "build harness bins with " + ",".join(ALT_FEATURES), "log": aloga[-1500:]}, True)
+            chk.finish()
     # ---- templates ----
     line_groups = []
     lowmem_groups = []
@@ -832,6 +903,7 @@ def main():
             one = [t for l, t in nesting_templates(True) if l == rp["regenerate"]]
         groups = [("replay", one)] if rp.get("bin", "prog") == "prog" else []
         line_groups = [("replay", one)] if rp.get("bin") == "c01" else []
+        replay_alt = rp.get("features") == "second"
     else:
         inbox = []
         for f in sorted(glob.glob(os.path.join(CACHE, "crash-inbox", "*"))):
@@ -850,7 +922,9 @@ def main():
         # what would be minutes of filling memory / pretty-printing an endless value on a tree without the bounds (14 shards
         # in parallel) into an immediate allocation failure / an early hang verdict
         lowmem_groups = [("widths", width_family()), ("cyclic", cyclic_family(REPO))]
-        line_groups = [("linesyntax", line_syntax_family())]
+        fmt_templates, fmt_direct = format_text_family()
+        groups.append(("formattext", fmt_templates))
+        line_groups = [("linesyntax", line_syntax_family()), ("formatdirect", fmt_direct)]
         labels = {t: l for l, t in nest}
     hist = collections.Counter()
     crashes = []
@@ -884,28 +958,47 @@ def main():
     # process restart, a hang a whole watchdog period; what a spent budget leaves out is counted as skipped.
     passes = [("main", "prog", groups, prog_req, 8000000, WATCHDOG_MS, 12 if quick else 14, 64, (lambda: Budget(max_bad=16)) if quick else (lambda: None)),
               ("line", "c01", line_groups, c01_req, 8000000, WATCHDOG_MS, 12 if quick else 14, 64, (lambda: Budget(max_bad=16)) if quick else (lambda: None))]
-    done = []  # (binname, flat, order, reqs, rel, res, watchdog)
+    done = []  # (binname, flat, order, reqs, rel, res, watchdog, alt)
 
-    def run_pass(ps):
+    def run_pass(ps, alt=False):
         name, binname, gs, mk, vlimit, wd, workers, chunk, mkbudget = ps
         flat = entries(gs)
         # heavy requests (long templates) first so that the shards finish together
         order = sorted(range(len(flat)), key=lambda i: -(len(flat[i][1]) + sum(len(x) for x in flat[i][2].get("templates", {}).values())))
         reqs = [mk(i, flat[i][1], flat[i][2]) for i in order]
-        for rel in (False, True):
+        for rel in (alt_profiles if alt else (False, True)):
             if reqs:
-                res = run_parallel(binname, reqs, rel, workers=workers, chunk=chunk, vlimit_kb=vlimit, watchdog_ms=wd, budget=mkbudget())
-                done.append((binname, flat, order, reqs, rel, res, wd))
+                res = run_parallel(binname, reqs, rel, workers=workers, chunk=chunk, vlimit_kb=vlimit, watchdog_ms=wd, budget=mkbudget(), alt=alt)
+                done.append((binname, flat, order, reqs, rel, res, wd, alt))
 
     # the strict families run beside the others, one pass and one budget per family (a crash class in one of them must not
     # use up the budget of the other)
     strict = [("strict:" + g, "prog", [(g, es)], prog_req, 2000000, 2000 if quick else 5000, 4 if quick else 14, 4 if quick else 64,
                (lambda: Budget(seconds=10, max_bad=25)) if quick else (lambda: None)) for g, es in lowmem_groups]
-    th = threading.Thread(target=lambda: [run_pass(ps) for ps in strict])
-    th.start()
-    run_pass(passes[0])
-    run_pass(passes[1])
-    th.join()
+    # second feature set: quick = the families whose code paths differ most (cyclic values: hashing; odd values; escaped objects; format
+    # strings), thorough = everything again
+    if chk.replay:
+        alt_passes = []
+    elif quick:
+        full_cyclic = [("cyclic", cyclic_family(REPO))]
+        pick = [(g, es) for g, es in groups if g in ("oddvalues", "escaped", "formattext", "multi")]
+        alt_passes = [("alt:cyclic", "prog", full_cyclic, prog_req, 2000000, 2000, 4, 4, lambda: Budget(seconds=15, max_bad=25)),
+                      ("alt:families", "prog", pick, prog_req, 8000000, WATCHDOG_MS, 12, 64, lambda: Budget(max_bad=16)),
+                      ("alt:line", "c01", line_groups, c01_req, 8000000, WATCHDOG_MS, 12, 64, lambda: Budget(max_bad=16))]
+    else:
+        alt_passes = [(n.replace("strict", "alt-strict") if n.startswith("strict") else "alt:" + n, b, g, m, v, w, wk, c, mb) for n, b, g, m, v, w, wk, c, mb in passes + strict]
+    if chk.replay and replay_alt:
+        run_pass(passes[0], alt=True)
+        run_pass(passes[1], alt=True)
+    else:
+        th = threading.Thread(target=lambda: [run_pass(ps) for ps in strict] + [run_pass(ps, alt=True) for ps in alt_passes if ps[4] == 2000000])
+        th.start()
+        run_pass(passes[0])
+        run_pass(passes[1])
+        for ps in alt_passes:
+            if ps[4] != 2000000:
+                run_pass(ps, alt=True)
+        th.join()
     # a request that did not answer within the watchdog while the shards (and whatever else) load the machine gets a second
     # chance with twice the watchdog before it counts as a hang: at most 2 per pass and profile, all of them at once, now that
     # the machine is idle
@@ -915,7 +1008,7 @@ def main():
         d, k = dk
         env2 = dict(ENV)
         env2["MJVERIF_WATCHDOG_MS"] = str(2 * d[6])
-        r2 = _run_chunk(["bash", "-c", "ulimit -v 8000000; exec " + bin_path(d[0], d[4])], [d[3][k]], env2)
+        r2 = _run_chunk(["bash", "-c", "ulimit -v 8000000; exec " + (alt_bin if d[7] else bin_path)(d[0], d[4])], [d[3][k]], env2)
         if r2 and not (isinstance(r2[0], dict) and r2[0].get("hang")):
             d[5][k] = r2[0]
             hist["answered_after_watchdog"] += 1
@@ -923,7 +1016,7 @@ def main():
     if retry:
         with concurrent.futures.ThreadPoolExecutor(max_workers=len(retry)) as ex:
             list(ex.map(second_chance, retry))
-    for binname, flat, order, reqs, rel, res, wd in done:
+    for binname, flat, order, reqs, rel, res, wd, alt in done:
         total += sum(1 for r in res if r is not None)
         for i, r in zip(order, res):
             gname, t, extra = flat[i]
@@ -940,9 +1033,9 @@ def main():
             elif "err" in rr:
                 hist[gname + "_err_" + ERR_NAMES.get(rr["err"], str(rr["err"]))] += 1
             else:
-                crashes.append((gname, t, "release" if rel else "debug", crash_kind(r), json.dumps(r)[:700]))
-                if extra:
-                    crash_extra[(t, gname)] = (extra, binname)
+                crashes.append((gname, t or json.dumps(extra, sort_keys=True), ("release" if rel else "debug") + ("+features" if alt else ""), crash_kind(r), json.dumps(r)[:700]))
+                if extra or alt or binname != "prog":
+                    crash_extra[(t or json.dumps(extra, sort_keys=True), gname)] = (extra, binname, alt)
     chk.notes["monitor_wall_s"] = round(time.time() - t_run, 1)
     meter = {}
     if not chk.replay:
@@ -991,7 +1084,11 @@ def main():
         seen.add(key)
         rp = {"template": t, "template_len": len(t), "profile": prof, "observed": detail, "generator": gname}
         if (t, gname) in crash_extra:
-            rp["request_extra"], rp["bin"] = crash_extra[(t, gname)]
+            rp["request_extra"], rp["bin"], is_alt = crash_extra[(t, gname)]
+            if is_alt:
+                rp["features"] = "second"
+            if "format_only" in rp["request_extra"]:
+                rp["template"] = ""
         if len(t) > 20000 and not chk.replay and t in labels:
             rp = {"regenerate": labels[t], "template_head": t[:200], "template_len": len(t), "profile": prof, "observed": detail, "generator": gname}
         chk.violation("host process crash: " + kind, rp)
